@@ -95,7 +95,14 @@ class LDMService:
             ):
                 subscriptions_to_remove.add(subscription)
         for subscription in subscriptions_to_remove:
-            self.remove_subscription(subscription)
+            with self._lock:
+                # The consumer may have registered and subscribed again (with an equal request)
+                # while this round was running: only a consumer that is still gone loses it
+                if (
+                    subscription.subscription_request.application_id
+                    not in self.data_consumer_its_aid
+                ):
+                    self.remove_subscription(subscription)
 
     def search_data(self, subscription: SubscriptionInfo) -> tuple[dict, ...]:
         """
